@@ -103,6 +103,11 @@ func adminCases(c0cuid, c1cuid string) []adminCase {
 	mk("create", "internal-clients", schema.CollectionNameClients)
 	mk("create", "internal-operations", schema.CollectionNameOperations)
 	mk("create", "internal-collections", schema.CollectionNameCollections)
+	mk("create", "internal-datatypes", schema.CollectionNameDatatypes)
+	mk("create", "internal-snapshots", schema.CollectionNameSnapshot)
+	mk("create", "internal-number-generator", schema.CollectionNameColNumGenerator)
+	mk("create", "internal-prefix-only", "-_-")
+	mk("create", "internal-prefix-other", "-_-Mine")
 	mk("create", "odd-characters", "a.b$c d ")
 	mk("create", "system-prefix", "system.indexes")
 	mk("create", "nul-character", "a\x00b")
@@ -114,6 +119,9 @@ func adminCases(c0cuid, c1cuid string) []adminCase {
 	mk("reset", "internal-clients", schema.CollectionNameClients)
 	mk("reset", "internal-datatypes", schema.CollectionNameDatatypes)
 	mk("reset", "internal-collections", schema.CollectionNameCollections)
+	mk("reset", "internal-operations", schema.CollectionNameOperations)
+	mk("reset", "internal-snapshots", schema.CollectionNameSnapshot)
+	mk("reset", "internal-number-generator", schema.CollectionNameColNumGenerator)
 	return cs
 }
 
@@ -273,6 +281,20 @@ func c16AdminCase(t *testing.T, name string) (res c16Result) {
 				}
 			}
 			return
+		}
+		if ac.kind == "create" || ac.kind == "reset" {
+			// administration goes on: two more collections can be created, and every collection has a number of its own
+			for _, later := range []string{"colLater1", "colLater2"} {
+				if lerr := m.sys.MakeCollection(later); lerr != nil {
+					res.Viol = viol("C17:collection-cannot-be-created-after:"+name, "CreateCollection(%s) after the request %s: %v", later, name, lerr)
+					return
+				}
+				if v := m.checkCollections(); v != nil {
+					v.Sig += ":after:" + name
+					res.Viol = v
+					return
+				}
+			}
 		}
 		if v := m.checkLog(); v != nil {
 			v.Sig += ":after:" + name
